@@ -6,6 +6,7 @@ import (
 	"crypto/sha256"
 	"encoding/hex"
 	"encoding/json"
+	"errors"
 	"fmt"
 	"net/http"
 	"sync"
@@ -142,6 +143,15 @@ func (c *LRUCache) Close() {
 	}
 }
 
+// ErrEntryTooLarge is returned by Set and SetWithTags when the entry can never
+// fit: the cache has no capacity, or the value alone exceeds the size limit.
+var ErrEntryTooLarge = errors.New("cache: entry exceeds cache limits")
+
+// canFit reports whether an entry of the given size could be stored at all.
+func (c *LRUCache) canFit(size int64) bool {
+	return c.capacity > 0 && (c.maxSize <= 0 || size <= c.maxSize)
+}
+
 // Get retrieves a value from the cache
 func (c *LRUCache) Get(key string) (interface{}, bool) {
 	c.mu.Lock()
@@ -198,6 +208,16 @@ func (c *LRUCache) Set(key string, value interface{}, ttl time.Duration) error {
 		Size:       size,
 	}
 
+	// An entry that can never fit must not be stored (and must not make the
+	// eviction loop below spin forever); drop any stale value for the key.
+	if !c.canFit(size) {
+		if elem, ok := c.items[key]; ok {
+			c.removeElement(elem)
+		}
+		verifEvent("Set", c, key, value, ttl, true)
+		return ErrEntryTooLarge
+	}
+
 	// Check if key already exists
 	if elem, ok := c.items[key]; ok {
 		c.evictList.MoveToFront(elem)
@@ -250,6 +270,14 @@ func (c *LRUCache) SetWithTags(key string, value interface{}, ttl time.Duration,
 		AccessedAt: time.Now(),
 		Size:       size,
 		Tags:       tags,
+	}
+
+	if !c.canFit(size) {
+		if elem, ok := c.items[key]; ok {
+			c.removeElement(elem)
+		}
+		verifEvent("SetTags", c, key, value, ttl, tags, true)
+		return ErrEntryTooLarge
 	}
 
 	if elem, ok := c.items[key]; ok {
